@@ -8,6 +8,9 @@
 // not proved). Because the verdicts depend on wall-clock time, a scenario whose verdict is bad is re-run
 // (same scenario, same seed) and only reported if it is bad three times; the oracle for "bad" is the Lean
 // driver itself ($VERIF_OUT/olla_model, which bin/check places there before the harness starts).
+//
+// Round 7: besides the fresh rig per scenario, histories (history.go) take ONE long-lived rig per engine through phases of
+// different scenarios that follow and overlap each other; every request of a history is judged like a scenario.
 package main
 
 import (
@@ -287,13 +290,26 @@ func modelBin() string {
 
 // judge returns one verdict per (scenario, obs) pair, or nil when the Lean driver is not available.
 func judge(scs []*timing.Scenario, obs []*timing.Obs) []verdict {
+	cases := make([]map[string]any, len(scs))
+	for i := range scs {
+		cases[i] = map[string]any{"kind": "scenario", "scenario": scs[i], "impl": obs[i]}
+	}
+	return judgeCases(cases)
+}
+
+// judgeCases: one verdict per case (any kind the driver knows), or nil when the Lean driver is not available.
+func judgeCases(cases []map[string]any) []verdict {
 	bin := modelBin()
 	if bin == "" {
 		return nil
 	}
 	var in bytes.Buffer
-	for i := range scs {
-		b, _ := json.Marshal(map[string]any{"case": i, "kind": "scenario", "scenario": scs[i], "impl": obs[i]})
+	for i, m := range cases {
+		m2 := map[string]any{"case": i}
+		for k, v := range m {
+			m2[k] = v
+		}
+		b, _ := json.Marshal(m2)
 		in.Write(b)
 		in.WriteByte('\n')
 	}
@@ -304,7 +320,7 @@ func judge(scs []*timing.Scenario, obs []*timing.Obs) []verdict {
 		fmt.Fprintln(os.Stderr, "c18: olla_model failed:", err)
 		return nil
 	}
-	vs := make([]verdict, 0, len(scs))
+	vs := make([]verdict, 0, len(cases))
 	sc := bufio.NewScanner(bytes.NewReader(out))
 	sc.Buffer(make([]byte, 1<<20), 1<<26)
 	for sc.Scan() {
@@ -313,7 +329,7 @@ func judge(scs []*timing.Scenario, obs []*timing.Obs) []verdict {
 			vs = append(vs, v)
 		}
 	}
-	if len(vs) != len(scs) {
+	if len(vs) != len(cases) {
 		return nil
 	}
 	return vs
@@ -494,6 +510,10 @@ func main() {
 	}
 	for _, lk := range leaks {
 		c.Emit(map[string]any{"kind": "leak", "impl": lk})
+	}
+	// histories: long-lived rigs taken through phases of different scenarios (history.go)
+	if vlib.ReplayPath() == "" {
+		flaky += histories(r.Fork(), c)
 	}
 	// long uptime: a stream is in flight when the engine's periodic clean-up pass runs, minutes after the last request
 	// started on that endpoint (simulated: the pools' last-used stamps move into the past, then the pass runs once)
